@@ -125,9 +125,24 @@ def run_case(case):
     for call in rec["major"]:
         for (md, added, raw) in call["result"]:
             majors.append((call["cn"], call["cn_score"], md, tuple(sorted(map(tuple, added))), raw, raw + (call["cn_score"] - min_cn)))
+    # every structure solution must have gone through the major stage; for one that did not, run the stage now: if it yields
+    # a major solution that survives the major filter, a within-gap candidate was never generated
+    seen_cn = [tuple(sorted(c["cn"].items())) for c in rec["major"]]
+    skipped = []
+    for obj, (cnd, sc) in zip(rec["cn"][0]["objects"], cn_list):
+        if tuple(sorted(cnd.items())) not in seen_cn:
+            extra = rec["original"]["estimate_major"](rec["cn"][0]["gene"], rec["cn"][0]["coverage"], obj, "cbc")
+            for s_ in extra:
+                skipped.append((cnd, sc, {a.major: n for a, n in s_.solution.items()}, tuple(sorted(map(tuple, s_.added))), s_.score, s_.score + (sc - min_cn)))
     if not majors:
         return Result([V("no-major-recorded-but-no-error")], labels, True)
-    min_major = min(m[5] for m in majors)
+    min_major = min(m[5] for m in majors + skipped)
+    lost = [m for m in skipped if m[5] - min_major - gap < PREC - 2e-4]
+    if lost:
+        viol.append(V("structure-skipped-before-major-stage-had-within-gap-candidate", structure=lost[0][0], total=lost[0][5], best=min_major, gap=gap))
+        return Result(viol, labels + ["structure-skipped"], True)
+    if skipped:
+        labels.append("structure-skipped-harmlessly")
     borderline = False
     kept = []
     for m in majors:
